@@ -27,7 +27,7 @@ T == <<"p", "q">>                       \* everything lives under root/p/q
 P(x) == T \o x
 NoFile == <<"NONE">>
 
-Optional == {"in", "inl", "g", "sib", "sec", "lnkf", "lnkd", "back", "lnkx", "lnkl"}
+Optional == {"in", "inl", "g", "sib", "sec", "lnkf", "lnkd", "back", "lnkx", "lnkl", "cap"}
 
 VARIABLES layout, base, req, result, done
 vars == <<layout, base, req, result, done>>
@@ -43,12 +43,14 @@ FS(L) ==
                  ( P(<<"dir">>) :> Dir ) @@ ( P(<<"dir", "sub">>) :> Dir ) @@
                  ( P(<<"dir", "sub", "deep.tex">>) :> File ) @@
                  ( P(<<"dir2">>) :> Dir ) @@ ( P(<<"out">>) :> Dir ) @@
+                 ( P(<<"Dir">>) :> Dir ) @@          \* a neighbour whose name differs from the base directory only in letter case
                  ( P(<<"dlink">>) :> Link(P(<<"dir">>)) )
         opt(name, path, e) == IF name \in L THEN ( path :> e ) ELSE [x \in {} |-> Dir]
     IN fixed @@ opt("in", P(<<"dir", "in.tex">>), File)
              @@ opt("inl", P(<<"dir", "in.latex">>), File)
              @@ opt("g", P(<<"dir", "g">>), File)
              @@ opt("sib", P(<<"dir2", "sib.tex">>), File)
+             @@ opt("cap", P(<<"Dir", "cap.tex">>), File)
              @@ opt("sec", P(<<"out", "secret.tex">>), File)
              @@ opt("lnkf", P(<<"dir", "lnkf">>), Link(P(<<"out", "secret.tex">>)))
              @@ opt("lnkd", P(<<"dir", "lnkd">>), Link(P(<<"out">>)))
